@@ -85,11 +85,14 @@ def do_event(mesh, lay, op, with_nbrs=True, grade_consts=None):
                 ev["judge_marking"] = bool(op[3]["judge"])
             with AxisRecorder(lay) as rec:
                 sc = op[3].get("scale", 1.0) if len(op) > 3 else 1.0
-                if sc != 1.0:
+                form = op[3].get("form", "c") if len(op) > 3 else "c"
+                if form != "c":
+                    ev["form"] = form
+                if sc != 1.0 or form != "c":
                     # indicators scaled by a power of two: sums and comparisons stay exact, the marked set must not change
                     import numpy as np
                     ev["scale"] = sc
-                    ml.apply_op(mesh, lay, (op[0], (np.array(op[1], dtype=float) * sc).tolist(), op[2]))
+                    ml.apply_op(mesh, lay, (op[0], (np.array(op[1], dtype=float) * sc).tolist(), op[2], form))
                 else:
                     ml.apply_op(mesh, lay, op[:3])
         else:
